@@ -197,6 +197,7 @@ RenderQ(q) ==
   \o " FROM " \o RenderFrom(q.from)
   \o (IF IsNone(q.where) THEN "" ELSE " WHERE " \o RenderE(q.where))
   \o (IF q.k = "group" /\ q.keys # <<>> THEN " GROUP BY " \o JoinStr([i \in 1..Len(q.keys) |-> RenderE(q.keys[i].e)], ", ") ELSE "")
+  \o (IF q.k = "group" /\ q.trig # "" THEN " TRIGGER " \o q.trig ELSE "")      \* triggers change when results appear, not what they are (C16)
   \o (IF q.order = <<>> THEN "" ELSE " ORDER BY " \o JoinStr([i \in 1..Len(q.order) |-> RenderE(q.order[i].e) \o (IF q.order[i].dir = "desc" THEN " DESC" ELSE " ASC")], ", "))
   \o (IF q.limit < 0 THEN "" ELSE " LIMIT " \o ToString(q.limit))
 
